@@ -188,6 +188,8 @@ func genCase(r *vrt.Run, rng *rand.Rand, i int, worlds map[string][]*evmenv.Worl
 		opts.Addrs = nil
 		if special < 25 {
 			c.code, c.kind = deepRecursion(rng, f, c.entry), "deeprec"
+		} else if special < 45 {
+			c.code, c.kind = hugeMemory(rng, f, true), "hugemem-astro"
 		} else {
 			p := proggen.Gen(rng, opts)
 			c.code, c.kind, c.feats = p.Code, "closed", p.Features
@@ -197,7 +199,7 @@ func genCase(r *vrt.Run, rng *rand.Rand, i int, worlds map[string][]*evmenv.Worl
 	case special < 8:
 		c.code, c.kind = deepRecursion(rng, f, c.entry), "deeprec"
 	case special < 11:
-		c.code, c.kind = hugeMemory(rng, f), "hugemem"
+		c.code, c.kind = hugeMemory(rng, f, false), "hugemem"
 	case special < 13:
 		c.code, c.kind = proggen.JumpHeavy(rng, 1+rng.Intn(40), proggen.RawBytes(rng, rng.Intn(40))), "jumpheavy"
 	default:
@@ -263,12 +265,18 @@ func deepRecursion(rng *rand.Rand, f proggen.Fork, e entryKind) []byte {
 
 // hugeMemory: memory / copy / hash / log / call / create operations with offsets and sizes
 // near 2^32 and 2^64: must fail with a gas error and never allocate.
-func hugeMemory(rng *rand.Rand, f proggen.Fork) []byte {
+func hugeMemory(rng *rand.Rand, f proggen.Fork, astro bool) []byte {
 	big64 := []*big.Int{
 		new(big.Int).SetUint64(1 << 32), new(big.Int).SetUint64(1<<32 - 1), new(big.Int).SetUint64(1<<32 + 31),
 		new(big.Int).SetUint64(math.MaxUint64), new(big.Int).SetUint64(math.MaxUint64 - 31), new(big.Int).SetUint64(1 << 63),
 		new(big.Int).Lsh(big.NewInt(1), 64), new(big.Int).Sub(new(big.Int).Lsh(big.NewInt(1), 256), big.NewInt(1)),
 		new(big.Int).SetUint64(0xffffffffe0), new(big.Int).SetUint64(1 << 40),
+	}
+	if astro {
+		// under an astronomic gas limit anything below 2^63 bytes might be payable and would be
+		// allocated for real: use only operands beyond any possible allocation
+		big64 = []*big.Int{new(big.Int).SetUint64(1 << 63), new(big.Int).SetUint64(math.MaxUint64), new(big.Int).SetUint64(math.MaxUint64 - 31),
+			new(big.Int).SetUint64(1<<63 + 31), new(big.Int).Lsh(big.NewInt(1), 64), new(big.Int).Sub(new(big.Int).Lsh(big.NewInt(1), 256), big.NewInt(1))}
 	}
 	h := func() *big.Int { return big64[rng.Intn(len(big64))] }
 	small := func() *big.Int { return big.NewInt(int64(rng.Intn(64))) }
@@ -327,9 +335,9 @@ func run(r *vrt.Run) {
 			worlds[rs] = append(worlds[rs], buildWorld(r, rs, k))
 		}
 	}
-	n := r.N(9000, 1_200_000)
+	n := r.N(6000, 1_200_000)
 	if r.Race() {
-		n = r.N(600, 60_000) // 5 % sample under the race detector / checkptr
+		n = r.N(400, 60_000) // 5 % sample under the race detector / checkptr
 	}
 	sh := &shared{opsSeen: map[string]*[256]bool{}, reasons: map[string]int{}}
 	for _, rs := range evmenv.RuleSets {
